@@ -536,7 +536,11 @@ func c05EndToEnd(c *vk.Ctx) bool {
 			}
 			id := nextID(c.Batch)
 			c.Progress("C05 udp pos=%d %s", pos, d.Name)
-			cl.Send(ssUDP(k, randBytes(r, ss), d.Addr, mkUDPPayload(id, 0, 0, 16)), urig.Addr4())
+			// the same forbidden destination several times in a row (a per-association cache must not
+			// let the second one through)
+			for rep := 0; rep < 1+pos; rep++ {
+				cl.Send(ssUDP(k, randBytes(r, ss), d.Addr, mkUDPPayload(id, 0, 0, 16)), urig.Addr4())
+			}
 			// fence on the same client (ordered behind the probe)
 			fid := nextID(c.Batch)
 			cl.Send(ssUDP(k, randBytes(r, ss), sscodec.AddrIP(pub, hub.Port, false), mkUDPPayload(fid, 0, 0, 16)), urig.Addr4())
